@@ -16,6 +16,8 @@ import (
 	"net/http/httptest"
 	"net/url"
 	"os"
+	"runtime/debug"
+	"strconv"
 	"strings"
 	"time"
 
@@ -29,6 +31,10 @@ var originHost, originPort = "127.0.0.1", "1"
 func wrapReq(r *http.Request) *ihttp.Request { return ihttp.WrapRequest(r) }
 
 func workerInit() {
+	// unbounded recursion must die quickly: with the runtime's default 1 GB limit one include cycle
+	// churns for ~40 s (the garbage collector rescans the ever deeper stack), with 16 MB it dies in well
+	// under a second. falco bounds its own call depth at 100, a legitimate run needs < 1 MB of stack.
+	debug.SetMaxStack(16 << 20)
 	srv := httptest.NewServer(http.HandlerFunc(func(w http.ResponseWriter, r *http.Request) {
 		w.Header().Set("Cache-Control", "max-age=3600")
 		w.Write([]byte("origin:" + r.URL.Path))
@@ -41,6 +47,12 @@ func main() {
 	if m := os.Getenv("C08_PROBE"); m != "" {
 		probe(m)
 		return
+	}
+	timeout := 120 * time.Second
+	if v := os.Getenv("C08_TIMEOUT_S"); v != "" { // debugging aid only
+		if n, err := strconv.Atoi(v); err == nil {
+			timeout = time.Duration(n) * time.Second
+		}
 	}
 	fw.Main(&fw.Prop{
 		ID:    "C08",
@@ -61,7 +73,7 @@ func main() {
 		Gen:           gen,
 		Run:           run,
 		WorkerInit:    workerInit,
-		Timeout:       120 * time.Second,
+		Timeout:       timeout,
 		MinNonTrivial: 3000,
 		CrashKey:      crashKey,
 		Finish:        finish,
